@@ -37,7 +37,10 @@ class Interp(ExprMixin, StmtMixin, CallMixin, BuiltinMixin, HeapMixin, SpecMixin
         self.ghost = {}             # ghost variables (name -> value)
         self.const_cache = {}       # (module, name) -> value
         self.class_attr_cache = {}
-        self.callsite_obligations = []   # (label, z3 goal, pc snapshot)
+        self.callsite_obligations = []   # (label, z3 goal, text, props) -- only used when no sink is installed
+        self.obligation_sink = None      # set by the verifier: obligations arising INSIDE a path (callee preconditions,
+                                         # loop invariants, recursion measures) are discharged at once, under the path
+                                         # condition of that moment -- never under assumptions made afterwards
         self.contracts = {}         # qualname -> Contract (modular calls)
         self.modular = set()        # qualnames to call through their contract
         self.inlined = set()        # qualnames inlined on this path
@@ -50,12 +53,19 @@ class Interp(ExprMixin, StmtMixin, CallMixin, BuiltinMixin, HeapMixin, SpecMixin
         self.bound_vars = []
         self.in_old = False
         self.modular_used = set()
+        self.unproved_skipped = set()
         self.bounds_hit = set()
         self.bounds_used = set()
         self.init_ghost()
         self.deferred = []
         self.touched_idx = []
         self.inst_done = set()
+
+    def emit_obligation(self, label, goal, text, props):
+        if self.obligation_sink is not None:
+            self.obligation_sink(label, goal, text, props)
+        else:
+            self.callsite_obligations.append((label, goal, text, props))
 
     # ------------------------------------------------------------------
     # fresh symbols
